@@ -30,6 +30,10 @@ package scorch
 //@ ghostfield segment.PostingsIterator.plast uint64
 //@ ghostfield segment.PostingsIterator.pdone bool
 //@ uf segCount(it segment.PostingsIterator) uint64
+// what the iterator enumerates (ghost set of local doc numbers, rebound when the iterator is reused for
+// another postings list) and its lower bound: everything below pfrom has been returned or skipped
+//@ ghostfield segment.PostingsIterator.pdocs [4294967296]bool
+//@ ghostfield segment.PostingsIterator.pfrom uint64
 // zapx hands out one shared, permanently empty iterator (emptyPostingsIterator) for every segment in
 // which the term does not occur: emptyIt marks it. It never returns a posting (so it is never
 // "started"), and it may sit at several positions of one reader.
@@ -44,19 +48,25 @@ package scorch
 //@ assume func segment.PostingsIterator.BytesRead(it)
 //@ assume func segment.PostingsIterator.Next(it)
 //@   requires it != nil
-//@   modifies it.pstarted, it.plast, it.pdone, segment.Posting.pnum
+//@   modifies it.pstarted, it.plast, it.pdone, it.pfrom, segment.Posting.pnum
 //@   ensures implies(result1 != nil, result0 == nil) && implies(emptyIt(it), result0 == nil)
 //@   ensures implies(old(it.pdone) && result1 == nil, result0 == nil)
 //@   ensures implies(result1 == nil && result0 != nil, result0.pnum < segCount(it) && implies(old(it.pstarted), result0.pnum > old(it.plast)) && it.pstarted && it.plast == result0.pnum && !it.pdone)
+// set level: the least document at or after the lower bound; nil: there is none
+//@   ensures implies(result1 == nil && result0 != nil, it.pdocs[result0.pnum] && result0.pnum >= old(it.pfrom) && it.pfrom == result0.pnum + 1 && all(x, uint64, implies(it.pdocs[x] && x >= old(it.pfrom), x >= result0.pnum)))
+//@   ensures implies(result1 == nil && result0 == nil, it.pfrom >= old(it.pfrom) && all(x, uint64, implies(it.pdocs[x], x < old(it.pfrom))))
 //@   ensures implies(result1 == nil && result0 == nil, it.pdone && it.pstarted == old(it.pstarted) && it.plast == old(it.plast))
 //@ assume func segment.PostingsIterator.Advance(it, docNum)
 // (doc numbers within a segment are 32 bit: zapx and scorch's own bitmap iterators truncate the target
 // to uint32, so a larger target would wrap around and land BEFORE it)
 //@   requires it != nil && (it.pdone || !it.pstarted || docNum > it.plast) && docNum < 4294967296
-//@   modifies it.pstarted, it.plast, it.pdone, segment.Posting.pnum
+//@   modifies it.pstarted, it.plast, it.pdone, it.pfrom, segment.Posting.pnum
 //@   ensures implies(result1 != nil, result0 == nil) && implies(emptyIt(it), result0 == nil)
 //@   ensures implies(old(it.pdone) && result1 == nil, result0 == nil)
 //@   ensures implies(result1 == nil && result0 != nil, result0.pnum < segCount(it) && result0.pnum >= docNum && it.pstarted && it.plast == result0.pnum && !it.pdone)
+// set level: the least document at or after both the target and the lower bound; nil: there is none
+//@   ensures implies(result1 == nil && result0 != nil, it.pdocs[result0.pnum] && result0.pnum >= old(it.pfrom) && it.pfrom == result0.pnum + 1 && all(x, uint64, implies(it.pdocs[x] && x >= old(it.pfrom) && x >= docNum, x >= result0.pnum)))
+//@   ensures implies(result1 == nil && result0 == nil, it.pfrom >= old(it.pfrom) && all(x, uint64, implies(it.pdocs[x], x < old(it.pfrom) || x < docNum)))
 //@   ensures implies(result1 == nil && result0 == nil, it.pdone && it.pstarted == old(it.pstarted) && it.plast == old(it.plast))
 
 // A snapshot's offsets: one per segment, starting at 0, non-decreasing. Opaque: only the
@@ -85,7 +95,7 @@ package scorch
 //@ spec opaque segsOK(i *IndexSnapshotTermFieldReader) bool = forall(p, 0, len(i.iterators), forall(q, p+1, len(i.iterators), i.snapshot.offsets[p] + segCount(i.iterators[p]) <= i.snapshot.offsets[q]))
 //@ spec tfrShape(i *IndexSnapshotTermFieldReader) bool = i.snapshot != nil && offsetsOK(i.snapshot) && segsOK(i) &&len(i.iterators) == len(i.snapshot.offsets) && len(i.iterators) == len(i.snapshot.segment) && \
 //@     0 <= i.segmentOffset && i.segmentOffset <= len(i.iterators) && forall(k, 0, len(i.iterators), i.iterators[k] != nil && (emptyIt(i.iterators[k]) || i.iterators[k].ppos == k)) && \
-//@     forall(k, 0, len(i.iterators), i.snapshot.offsets[k] < 4611686018427387904 && segCount(i.iterators[k]) < 4611686018427387904) && \
+//@     forall(k, 0, len(i.iterators), i.snapshot.offsets[k] < 4611686018427387904 && segCount(i.iterators[k]) <= 4294967296) && \
 //@     forall(k, 0, len(i.iterators)-1, i.snapshot.offsets[k] + segCount(i.iterators[k]) <= i.snapshot.offsets[k+1])
 // iterators of later segments have delivered nothing; a started iterator never ran ahead of the
 // reader; what the current segment can still deliver lies beyond the last returned id, and that id
@@ -97,6 +107,17 @@ package scorch
 //@     implies(i.gstarted && i.segmentOffset + 1 < len(i.iterators), i.glast < i.snapshot.offsets[i.segmentOffset+1]) && \
 //@     implies(i.currPosting != nil, i.gstarted && idNum(i.currID) <= i.glast) && \
 //@     implies(i.gstarted, 0 <= i.gseg && i.gseg < len(i.iterators) && i.gseg <= i.segmentOffset && i.iterators[i.gseg].pstarted && i.snapshot.offsets[i.gseg] <= i.glast && i.glast < i.snapshot.offsets[i.gseg] + segCount(i.iterators[i.gseg]))
+
+// ---- set level: the reader enumerates { offsets[k] + x : x in the documents of iterator k } ----
+// the reader's position: everything below it has been returned or skipped on purpose (Advance)
+// (glb: the highest Advance target so far)
+//@ ghostfield IndexSnapshotTermFieldReader.glb uint64
+//@ spec tfrPos(i *IndexSnapshotTermFieldReader) uint64 = max(ite(i.gstarted, i.glast + 1, 0), i.glb)
+// (the shared empty iterator contributes nothing: the reader's documents are those of its non-empty iterators)
+// documents of a segment lie below its count; no iterator has passed a document at or after the
+// reader's position; the segments before the cursor have nothing at or after it
+//@ spec tfrSet(i *IndexSnapshotTermFieldReader) bool = forall(k, 0, len(i.iterators), all(x, uint64, implies(!emptyIt(i.iterators[k]) && i.iterators[k].pdocs[x], x < segCount(i.iterators[k]) && implies(i.snapshot.offsets[k] + x >= tfrPos(i), x >= i.iterators[k].pfrom)))) && \
+//@     forall(k, 0, i.segmentOffset, all(x, uint64, implies(!emptyIt(i.iterators[k]) && i.iterators[k].pdocs[x], i.snapshot.offsets[k] + x < tfrPos(i))))
 
 // With frequencies, norms and term vectors switched off the conversion leaves rv alone (the id
 // is set by the caller). The three flags are requirements of every reader contract below: the
@@ -113,18 +134,25 @@ package scorch
 //@   props C08
 //@   mode int
 //@   prune
-//@   requires i != nil && tfrShape(i) && tfrCursor(i) && !i.updateBytesRead && !i.includeFreq && !i.includeNorm && !i.includeTermVectors
-//@   modifies i.segmentOffset, i.currID, i.currPosting, i.gstarted, i.glast, i.gseg, segment.PostingsIterator.pstarted, segment.PostingsIterator.plast, segment.PostingsIterator.pdone, segment.Posting.pnum, fields(index.TermFieldDoc), mem(byte)
+//@   reveal segsOK
+//@   requires i != nil && tfrShape(i) && tfrCursor(i) && tfrSet(i) && !i.updateBytesRead && !i.includeFreq && !i.includeNorm && !i.includeTermVectors
+//@   modifies i.segmentOffset, i.currID, i.currPosting, i.gstarted, i.glast, i.gseg, segment.PostingsIterator.pstarted, segment.PostingsIterator.plast, segment.PostingsIterator.pdone, segment.PostingsIterator.pfrom, segment.Posting.pnum, fields(index.TermFieldDoc), mem(byte)
 //@   at return: ghost i.gstarted = i.gstarted || (result1 == nil && result0 != nil)
 //@   at return: ghost i.glast = ite(result1 == nil && result0 != nil, idNum(result0.ID), i.glast)
 //@   at return: ghost i.gseg = ite(result1 == nil && result0 != nil, i.segmentOffset, i.gseg)
 //@   ensures implies(result1 == nil, tfrShape(i) && tfrCursor(i))
+//@   ensures implies(result1 == nil, tfrSet(i))
+// set level: the result is a document of the reader and the least one at or after the reader's position; nil: there is none
+//@   ensures implies(result1 == nil && result0 != nil, i.segmentOffset < len(i.iterators) && idNum(result0.ID) >= i.snapshot.offsets[i.segmentOffset] && i.iterators[i.segmentOffset].pdocs[idNum(result0.ID) - i.snapshot.offsets[i.segmentOffset]])
+//@   ensures implies(result1 == nil && result0 != nil, forall(k, 0, len(i.iterators), all(x, uint64, implies(!emptyIt(i.iterators[k]) && i.iterators[k].pdocs[x] && i.snapshot.offsets[k] + x >= old(tfrPos(i)), i.snapshot.offsets[k] + x >= idNum(result0.ID)))))
+//@   ensures implies(result1 == nil && result0 == nil, forall(k, 0, len(i.iterators), all(x, uint64, implies(!emptyIt(i.iterators[k]) && i.iterators[k].pdocs[x], i.snapshot.offsets[k] + x < old(tfrPos(i))))))
 //@   ensures implies(result1 == nil && result0 != nil, i.gstarted && i.glast == idNum(result0.ID) && i.gseg == i.segmentOffset) && implies(result0 == nil, i.gstarted == old(i.gstarted) && i.glast == old(i.glast) && i.gseg == old(i.gseg))
-//@   ensures i.snapshot == old(i.snapshot) && i.iterators == old(i.iterators)
+//@   ensures i.snapshot == old(i.snapshot) && i.iterators == old(i.iterators) && i.glb == old(i.glb)
 //@   ensures implies(old(i.segmentOffset) >= len(i.iterators), result0 == nil)
 //@   ensures implies(result1 == nil && result0 != nil, implies(old(i.gstarted), idNum(result0.ID) > old(i.glast)) && idNum(result0.ID) >= i.snapshot.offsets[old(i.segmentOffset)] && i.currPosting != nil && i.currID == result0.ID)
 //@   ensures implies(result1 == nil && result0 != nil && old(i.segmentOffset) < len(i.iterators) && old(i.iterators[i.segmentOffset].pdone), old(i.segmentOffset) + 1 < len(i.iterators) && idNum(result0.ID) >= i.snapshot.offsets[old(i.segmentOffset)+1])
 //@   loop 0: invariant tfrShape(i) && tfrCursor(i) && i.segmentOffset >= old(i.segmentOffset) && i.gstarted == old(i.gstarted) && i.glast == old(i.glast) && i.gseg == old(i.gseg) && rv != nil && i.snapshot == old(i.snapshot) && i.iterators == old(i.iterators)
+//@   loop 0: invariant tfrSet(i)
 //@   loop 0: invariant !i.updateBytesRead && !i.includeFreq && !i.includeNorm && !i.includeTermVectors
 //@   loop 0: invariant implies(old(i.segmentOffset) < len(i.iterators) && old(i.iterators[i.segmentOffset].pdone) && i.segmentOffset == old(i.segmentOffset), i.iterators[i.segmentOffset].pdone)
 //@   loop 0: invariant implies(i.segmentOffset < len(i.iterators), i.snapshot.offsets[i.segmentOffset] >= i.snapshot.offsets[old(i.segmentOffset)])
@@ -140,12 +168,18 @@ package scorch
 //@   mode int
 //@   prune
 //@   reveal offsetsOK segsOK
-//@   requires i != nil && tfrShape(i) && tfrCursor(i) && !i.updateBytesRead && !i.includeFreq && !i.includeNorm && !i.includeTermVectors
-//@   requires implies(i.gstarted, idNum(ID) > i.glast)
-//@   modifies i.segmentOffset, i.currID, i.currPosting, i.gstarted, i.glast, i.gseg, segment.PostingsIterator.pstarted, segment.PostingsIterator.plast, segment.PostingsIterator.pdone, segment.Posting.pnum, fields(index.TermFieldDoc), mem(byte)
+//@   requires i != nil && tfrShape(i) && tfrCursor(i) && tfrSet(i) && !i.updateBytesRead && !i.includeFreq && !i.includeNorm && !i.includeTermVectors
+//@   requires implies(i.gstarted, idNum(ID) > i.glast) && idNum(ID) >= i.glb
+//@   at entry: ghost i.glb = idNum(ID)
+//@   modifies i.segmentOffset, i.currID, i.currPosting, i.gstarted, i.glast, i.gseg, i.glb, segment.PostingsIterator.pstarted, segment.PostingsIterator.plast, segment.PostingsIterator.pdone, segment.PostingsIterator.pfrom, segment.Posting.pnum, fields(index.TermFieldDoc), mem(byte)
 //@   at return: ghost i.gstarted = i.gstarted || (result1 == nil && result0 != nil)
 //@   at return: ghost i.glast = ite(result1 == nil && result0 != nil, idNum(result0.ID), i.glast)
 //@   at return: ghost i.gseg = ite(result1 == nil && result0 != nil, i.segmentOffset, i.gseg)
 //@   ensures implies(result1 == nil, tfrShape(i) && tfrCursor(i))
+//@   ensures implies(result1 == nil, tfrSet(i))
+// set level: the least document of the reader at or after the target; nil: there is none
+//@   ensures implies(result1 == nil && result0 != nil, i.segmentOffset < len(i.iterators) && idNum(result0.ID) >= i.snapshot.offsets[i.segmentOffset] && i.iterators[i.segmentOffset].pdocs[idNum(result0.ID) - i.snapshot.offsets[i.segmentOffset]])
+//@   ensures implies(result1 == nil && result0 != nil, forall(k, 0, len(i.iterators), all(x, uint64, implies(!emptyIt(i.iterators[k]) && i.iterators[k].pdocs[x] && i.snapshot.offsets[k] + x >= old(idNum(ID)), i.snapshot.offsets[k] + x >= idNum(result0.ID)))))
+//@   ensures implies(result1 == nil && result0 == nil, forall(k, 0, len(i.iterators), all(x, uint64, implies(!emptyIt(i.iterators[k]) && i.iterators[k].pdocs[x], i.snapshot.offsets[k] + x < old(idNum(ID))))))
 //@   ensures implies(result1 == nil && result0 != nil, i.gstarted && i.glast == idNum(result0.ID) && i.gseg == i.segmentOffset) && implies(result0 == nil, i.gstarted == old(i.gstarted) && i.glast == old(i.glast) && i.gseg == old(i.gseg))
 //@   ensures implies(result1 == nil && result0 != nil, idNum(result0.ID) >= old(idNum(ID)) && implies(old(i.gstarted), idNum(result0.ID) > old(i.glast)))
